@@ -15,7 +15,7 @@ ASSUMPTIONS = [
     "a presentation = permuted rule list, permuted node positions and edge order inside every rule, permuted label indices (label-table insertion order), random label names (hash order of sets), explicit/implicit/mixed ids, permuted domain values together with the factor axes",
     "each presentation's results are mapped back to the canonical indexing and judged in Coq against the canonical grammar's model (C01/C02 check functions); the Viterbi derivation is judged on the presentation itself (C04 check function)",
     "twin rules (harness/props/_c12_util.py): random specs in which 1..3 rules get a twin with the same lhs and the same edge list but other external nodes (order / choice), an added or dropped isolated node, or nothing changed (duplicate); recursive specs get a forced cycle and the twin is preferably a constant rule of a cyclic nonterminal; each twinned spec is built through {direct objects, JSON dict -> json_to_hrg, hrg_to_json round trip, FGG.copy} x id styles {restarting in every rule, globally distinct, implicit, the same Node/Edge objects shared by all rules (explicit or implicit ids)} with shuffled rule order and call histories (same call twice, another method first), and every result is judged in Coq against the twinned spec's own model (C01/C02; Viterbi by C04, gradients by C03 with ids restarting in every rule); recursive specs whose run with globally distinct ids warns, is infinite or has an unproductive cycle are discarded (input selection only)",
-    "gradients: on a subset of the grammars (weights made strictly positive) every presentation's gradient is judged by C03's dual-number check on the presentation itself; by C12_grad_presentation / C12_dual_presentation (C12_presentation at the dual semiring) the derivative of every Kleene iterate with respect to the moved weight entry is invariant, and so is the reverse accumulation of non-recursive grammars (C12_backward_nonrec_presentation)",
+    "gradients: on a subset of the grammars (weights made strictly positive) every presentation's gradient is judged by C03's dual-number check on the presentation itself, and so are Log-semiring gradients of presentations (rule order permuted) of C03's grammars with a rule whose sum-product is structurally zero (a dead rule inside a recursive component, and the minimal non-recursive one); by C12_grad_presentation / C12_dual_presentation (C12_presentation at the dual semiring) the derivative of every Kleene iterate with respect to the moved weight entry is invariant, and so is the reverse accumulation of non-recursive grammars (C12_backward_nonrec_presentation)",
     "recursive grammars: C12_lfp_presentation / C12_lfp_value_presentation / C12_enclosure_presentation: least fixed points and certified enclosures of G and of any presentation correspond (iff), so judging the mapped-back result against the canonical grammar's C02 enclosure is judging the presentation's own least fixed point; Viterbi: C12_tree_presentation, C12_viterbi_derivation_presentation, C12_viterbi_optimum_presentation",
 ]
 
@@ -107,6 +107,25 @@ def run(tier, seed):
             try:
                 for cf, wire, meta in C03.grad_cases(spec2, sr, method, ids=["explicit", "implicit", "mixed"][p % 3], rng=rng, build_kwargs=dict(names=names)):
                     gvals.append(wire); gmeta.append(dict(meta["case"], presentation_of=gen.spec_jsonable(gspec)))
+            except Exception as e:
+                violations.append(Violation("gradient computation raised %r on a presentation" % (e,), case=dict(spec=gen.spec_jsonable(spec2), semiring=repr(sr), method=method),
+                                            corr="corr:presentation-gradient", call="sum_product(...).backward()"))
+    # Log-semiring gradients through a rule whose sum-product is structurally zero (C03's minimal "dead rule" grammar and
+    # the forced dead-rule-first component), on presentations: the class of seeded/C12-b (J_log pairs the per-rule
+    # sum-products with the wrong rules when a dead rule is filtered out)
+    try:
+        dead_specs = [(C03.forced_finding_specs()[0], Fraction(1)),
+                      (C03.forced_recursive_spec(rng, 3), Fraction(1, 8)), (C03.forced_recursive_spec(rng, 3), Fraction(1, 8))]
+    except Exception:
+        dead_specs = []
+    for dspec, dscale in dead_specs:
+        for p in range(4):
+            spec2, names, back = gen.present(dspec, rng)
+            sr = SR("log", "float64", dscale)
+            method = ["fixed-point", "newton"][p % 2]
+            try:
+                for cf, wire, meta in C03.grad_cases(spec2, sr, method, ids=["explicit", "implicit", "mixed"][p % 3], rng=rng, build_kwargs=dict(names=names)):
+                    gvals.append(wire); gmeta.append(dict(meta["case"], presentation_of=gen.spec_jsonable(dspec), stream="log-dead-rule"))
             except Exception as e:
                 violations.append(Violation("gradient computation raised %r on a presentation" % (e,), case=dict(spec=gen.spec_jsonable(spec2), semiring=repr(sr), method=method),
                                             corr="corr:presentation-gradient", call="sum_product(...).backward()"))
